@@ -197,3 +197,10 @@ tech("C19", "call-chain allow-list between key bytes and stored halves")
 tech("C20", "bounded path-sensitive enumeration (key sources) + made-with-length dataflow + default agreement of shared flag variables")
 tech("C04", "append-aliasing analysis of signature lists + shared schema table")
 tech("C13", "StringArray flag kinds for path lists")
+
+# round 14 (feature additions)
+also("C16", "R-C16-1 also follows module callees that are handed memory hanging off a package-level variable (A4 effects analysis): a method that writes through its receiver, called on a package-level sentinel, writes the global.")
+also("C05", "Stages are also found inside exported wrappers that are not pipeline stages themselves (helper frames), so the wiring clauses hold for bundled stages.")
+also("C09", "Stages are also found inside exported wrappers that are not pipeline stages themselves (helper frames).")
+also("C03", "Hash objects are compared by reflect.DeepEqual, maps.Equal or a module function with the checked shape of an equality predicate on two maps (length test, range, comma-ok lookup, value comparison, false on every early exit).")
+also("C13", "The cycle error may be the sentinel or a wrapper whose Is method compares with it.")
